@@ -273,7 +273,7 @@ pub fn table_serde(dir: &str, _tier: &str, _seed: u64, per: usize) -> (usize, u6
                                             m.to_short_messages(DataEntryByteOrder::MsbFirst);
                                         a.iter().flatten().map(|x| x.data_byte_2().get() as i64).max().unwrap_or(0)
                                     });
-                                    let rep = crate::sut::pn_report(&m);
+                                    let rep = crate::basics::pn_report(&m);
                                     row.push(1);
                                     row.extend(rep.as_array().unwrap().iter().map(|x| x.as_i64().unwrap()));
                                     row.push(enc.unwrap_or(PANIC));
@@ -396,7 +396,7 @@ pub fn table_serde(dir: &str, _tier: &str, _seed: u64, per: usize) -> (usize, u6
                     let reg = (ctor >= 4) as i64;
                     let (b14, dt) = match ctor % 4 { 0 => (0, 0), 1 => (1, 0), 2 => (0, 2), _ => (0, 1) };
                     let vv = if b14 == 1 { v * 129 } else { v };
-                    let m = crate::exec::build_pn(&[c, n, vv, reg, b14, dt]);
+                    let m = crate::basics::build_pn(&[c, n, vv, reg, b14, dt]);
                     let (r, _) = guarded(|| from_value::<ParameterNumberMessage>(to_value(m).unwrap()).map(|y| y == m).map_err(|_| ()));
                     rt(9, [ctor, c, n, vv], r);
                 }
